@@ -52,13 +52,23 @@ def fresh(prefix):
     return z3.Int(f"{prefix}!{_FRESH[0]}")
 
 
+_DIVMOD = {}
+
+
 def divmod_c(e, m):
     """(e div m, e mod m) for a positive constant m, through fresh variables q, r with e == q*m + r, 0 <= r < m"""
     if is_conc(e):
         v = conc_int(e)
         return z3.IntVal(v // m), z3.IntVal(v % m)
+    # one quotient/remainder pair per (term, modulus): `x >> 32` and `x as u32` then share their variables and no solver has
+    # to rediscover the uniqueness of Euclidean division
+    k = (e.get_id(), m)
+    if k in _DIVMOD:
+        return _DIVMOD[k]
     q, r = fresh("q"), fresh("r")
     LEMMAS.append(z3.And(e == q * m + r, r >= 0, r < m))
+    _DIVMOD[k] = (q, r)
+    KEEP.append(e)
     return q, r
 
 
@@ -162,6 +172,7 @@ def reset_state():
     del LEMMAS[:]
     del PRODS[:]
     _PROD.clear()
+    _DIVMOD.clear()
     UB.clear()
     INTERVALS.clear()
     _LINCACHE.clear()
